@@ -26,6 +26,9 @@ def root_name(e: ast.AST) -> Optional[str]:
             return e.id
         if isinstance(e, (ast.Attribute, ast.Subscript, ast.Starred)):
             e = e.value
+        elif isinstance(e, ast.Call) and isinstance(e.func, (ast.Name, ast.Attribute)) and \
+                (e.func.id if isinstance(e.func, ast.Name) else e.func.attr) == "reduce" and len(e.args) == 3:
+            e = e.args[2]        # a fold that descends from its initial value: the object reached belongs to what it started from
         elif isinstance(e, ast.Call):
             e = e.func
         else:
